@@ -45,7 +45,8 @@ def format_token(res, facts, rule="C08.R6"):
                 continue
             ch = o.value.chunks
             shape = []
-            for kind, x in ch:
+            for c_ in ch:
+                kind, x = c_[0], c_[1]
                 if kind == "lit":
                     shape.append("<header>" if x == "HDR" else x)
                 elif isinstance(x, A.StrV):
